@@ -21,7 +21,8 @@ def run(run):
             ("c10", 200 if quick else 2000, run.seed + 2)]
     results, cover, summary, scripts, traces = L.run_families(run, fams)
     cnt = L.classify(run, "C11", results, scripts, traces)
-    sa, mism = L.check_a(run, ["-mode", "membership", "-len", 4])
+    sa, mism = L.check_a(run, ["-mode", "membership", "-len", 4], vm_stride=400)
+    L.vm_membership(run)
     for line in mism[:50]:
         run.violation("corr-membership:" + "/".join(t.split("=")[1] for t in line.split()[2:4]),
                       {"driver_line": line,
